@@ -31,6 +31,44 @@ theorem keypad_pipeline :
       (prun pinit (natsOf (encodeXterm asciiUni { keycode := e.1 } true ckm))).2 == [.ss3 e.2.2.toNat]) = true := by
   decide +kernel
 
+/-- **key_pipeline.** The property's sentence as one statement over the whole kernel-evaluated key domain
+    (`C13.domainKeys`: 26 special keys + 95 printable ASCII keys × 8 Shift/Alt/Ctrl sets × 5 event shapes) × 4 (keypad,
+    cursor-key) modes: whenever the xterm legacy protocol expresses the chord, the BYTES `encodeXterm` writes are parsed by
+    the parser model (C02, ground state) into exactly the one sequence of xterm's report, and `decodeKey` of that sequence
+    matches the original key and modifiers.  (The lone `ESC` of the Escape key is delivered by the escape time-out, C08.) -/
+theorem key_pipeline :
+    (domainKeys.all fun k => allModes.all fun md =>
+      match xtermLegacy k.keycode (xtermMods k) (shiftedOf asciiUni k) md.2 with
+      | none => true
+      | some s =>
+        (s == .c0 27) ||
+        ((prun pinit (natsOf (encodeXterm asciiUni k md.1 md.2))).2 == itemsOf s &&
+         decide (keyArrives asciiUni k (decodeKey asciiUni s)))) = true := by
+  decide +kernel
+
+/-- **keypad_key_pipeline.** The same for the keypad domain (`C13Keypad.keypadDomain`, 1392 events × 4 modes): in
+    application mode the bytes parse to exactly one `SS3` item with xterm's final; otherwise, when the legacy protocol
+    expresses the chord of the key the keypad key stands for, the bytes parse to exactly that report and it decodes to an
+    event matching that key and the modifiers; Begin likewise with its own reports. -/
+theorem keypad_key_pipeline :
+    (keypadDomain.all fun k => allModes.all fun md =>
+      match keypadJudgedAs k md.1 with
+      | some (.inl b) => (prun pinit (natsOf (encodeXterm asciiUni k md.1 md.2))).2 == [.ss3 (b.getD 2 0).toNat]
+      | some (.inr k') =>
+        (match xtermLegacy k'.keycode (xtermMods k') (shiftedOf asciiUni k') md.2 with
+         | none => true
+         | some s =>
+           (prun pinit (natsOf (encodeXterm asciiUni k md.1 md.2))).2 == itemsOf s &&
+           decide (keyArrives asciiUni k' (decodeKey asciiUni s)))
+      | none =>
+        (match keypadBeginLegacy (xtermMods k) md.2 with
+         | none => decide (k.keycode ≠ KeyKeyPadBegin)
+         | some s =>
+           decide (k.keycode ≠ KeyKeyPadBegin) ||
+           ((prun pinit (natsOf (encodeXterm asciiUni k md.1 md.2))).2 == itemsOf s &&
+            decide (keyArrives asciiUni k (decodeKey asciiUni s))))) = true := by
+  decide +kernel
+
 /-- **keypad_follows_child_stream.** "The child's … keypad modes select the encoding it asked for", with the modes read
     off the child's own output: after ANY stream (from any emulator state) an unmodified keypad key press without text,
     Num Lock off, is written as `Spec.keypadDue` says for the keypad mode the stream last selected (`ESC =` not followed
